@@ -4,6 +4,7 @@ import (
 	"context"
 	"fmt"
 	"testing"
+	"time"
 
 	"berty.tech/go-ipfs-log/entry"
 	orbitdb "berty.tech/go-orbit-db"
@@ -29,6 +30,7 @@ type CaseC03 struct {
 	Route   string     `json:"route"` // sync | topic | direct | ancestor
 	Honest  int        `json:"honest"` // honest writes interleaved after the hostile delivery
 	Chain   int        `json:"chain"`  // length of the hostile chain (the head's own hostile ancestors)
+	Shared  bool       `json:"shared_opts"` // the victim opened a wildcard sibling database first, with the same options value
 }
 
 func genC03(rt *rapid.T) CaseC03 {
@@ -45,12 +47,17 @@ func genC03(rt *rapid.T) CaseC03 {
 		Route:   rapid.SampledFrom([]string{"sync", "topic", "direct", "ancestor", "ancestor-refs"}).Draw(rt, "route"),
 		Honest:  rapid.IntRange(0, 2).Draw(rt, "honest"),
 		Chain:   rapid.IntRange(1, 3).Draw(rt, "chain"),
+		Shared:  rapid.Bool().Draw(rt, "shared"),
 	}
 	c.Hist = genHist(rt, c.Authors, 6)
 	return c
 }
 
-func execC03(c CaseC03) *Outcome {
+func execC03(c CaseC03) *Outcome { return execC03x(c, false) }
+
+// execC03x runs the scenario; with eventsOnly it is the C16 check "a replicated event never announces
+// an entry the store does not hold", on batches part of which the store refuses.
+func execC03x(c CaseC03, eventsOnly bool) *Outcome {
 	ctx := context.Background()
 	o := &Outcome{}
 	if isKnown(keyForgedAuthor) {
@@ -60,7 +67,7 @@ func execC03(c CaseC03) *Outcome {
 		}
 	}
 	world.ResetHooks()
-	opts := hostileOpts{Type: c.Type, Authors: c.Authors, VictimWrites: true}
+	opts := hostileOpts{Type: c.Type, Authors: c.Authors, VictimWrites: true, SharedOpts: c.Shared}
 	authors := c.Authors
 	switch c.List {
 	case "wildcard":
@@ -91,6 +98,13 @@ func execC03(c CaseC03) *Outcome {
 		return fail("harness: %v", err)
 	}
 	v := env.victim()
+	if eventsOnly {
+		stop, err := env.watchReplicated()
+		if err != nil {
+			return fail("harness: %v", err)
+		}
+		defer stop()
+	}
 	if c.PreSync {
 		for a := 0; a < authors; a++ {
 			if cl.Stores[a].OpLog().Len() == 0 {
@@ -234,6 +248,18 @@ func execC03(c CaseC03) *Outcome {
 	reached := len(cl.W.Peers[env.V].GetLog) > fetchedBefore
 	o.NonTrivial = reached && len(env.hostile) > 0
 	o.Labels = append(o.Labels, "kind:"+c.Kind, "route:"+route, "list:"+c.List)
+	if eventsOnly {
+		// the canary's own event has been received once the watcher has drained the subscription
+		time.Sleep(2 * time.Millisecond)
+		env.evMu.Lock()
+		bad, n := env.evBad, env.evN
+		env.evMu.Unlock()
+		if bad != "" {
+			return fail("write list %s, %s entry delivered by %s: %s", c.List, c.Kind, route, bad)
+		}
+		o.NonTrivial = o.NonTrivial && n > 0
+		return o
+	}
 	if !restricted && c.Kind != "stolen-key-field" && c.Kind != "nonwriter-otherlog" {
 		// the hostile payload is legitimately visible with a wildcard list: only order/replay are checked
 		if _, err := env.tr.checkOrder(v); err != nil {
